@@ -647,9 +647,16 @@ def small_scope_iter(shard, nshards, rng=None, limit=None):
 def chain(rng, length, family=None):
     fam = family or rng.choice(["neg_add", "minus_right", "minus_left", "divide_right", "divide_left", "rec_mul",
                                 "neg", "rec", "npow", "root", "explog", "add_nest", "mul_nest", "pow_pow", "mixed",
-                                "prod_sums", "neg_prod_sums", "sum_prods", "rec_sums", "log_sum", "exp_prod"])
+                                "prod_sums", "neg_prod_sums", "sum_prods", "rec_sums", "log_sum", "exp_prod", "flat_prod_sums", "flat_prod_sums"])
     x = ("Variable", "x")
     t = x
+    if fam == "flat_prod_sums":
+        # one flat product: constant * (a+b) * (c+d) * ... (k sum factors, k <= 12)
+        vs_ = [("Variable", "x"), ("Variable", "y"), ("Constant", 2), ("Variable", "z")]
+        k = max(2, min(12, length // 3))
+        fs = [("Add", vs_[i % 4], vs_[(i + 1) % 4]) for i in range(k)]
+        fs.insert(rng.randint(0, k), ("Constant", rng.choice([2, -1, 3, 0.5])))
+        return ("Multiply",) + tuple(fs), fam
     if fam in ("prod_sums", "neg_prod_sums"):
         t = ("Constant", rng.choice([2, -1, 3, 0.5]))
     vs = [("Variable", "x"), ("Variable", "y"), ("Constant", 2), ("Variable", "z")]
